@@ -117,8 +117,19 @@ def make_file(rnd, ver):
 
 def run(ctx):
     rnd = random.Random(ctx.seed)
-    ctx.expect_ok(run_tlc('Truncation', CFG % ('TRUE', 'v3'), ctx.workdir, name='trunc_v3', timeout=3600))
-    ctx.expect_ok(run_tlc('Truncation', CFG % ('TRUE', 'v2'), ctx.workdir, name='trunc_v2', timeout=3600))
+    r3 = ctx.expect_ok(run_tlc('Truncation', CFG % ('TRUE', 'v3'), ctx.workdir, name='trunc_v3', timeout=3600,
+                               args=['-coverage', '1']))
+    r2 = ctx.expect_ok(run_tlc('Truncation', CFG % ('TRUE', 'v2'), ctx.workdir, name='trunc_v2', timeout=3600,
+                               args=['-coverage', '1']))
+    # vacuity guard: every action of the reader program was taken in at least one family
+    cov = {}
+    for r in (r3, r2):
+        for a, (d, t) in r.coverage().items():
+            cov[a] = cov.get(a, 0) + t
+    never = sorted(a for a, t in cov.items() if t == 0)
+    if never or len(cov) < 10:
+        raise RuntimeError('Truncation.tla: actions never taken (vacuous exploration): %s / %s' % (never, cov))
+    ctx.extra['action_coverage'] = cov
     ctx.expect_violation(run_tlc('Truncation', CFG % ('FALSE', 'v3'), ctx.workdir, name='neg_no_eof_exit',
                                  timeout=3600, allow_error=True), 'seek_until without end-of-stream exit: lasso')
     nfiles = 6 if ctx.quick else 60
